@@ -33,6 +33,8 @@ fn main() {
         ("replay", "numfmt") => props::numfmt::replay(&args),
         ("drive", "numfmt") => props::numfmt::drive(&args),
         ("replay", "numfmt_builtin") => props::numfmt::builtin_files(&args),
+        ("replay", "numfmt_xlsb") => props::numfmt::replay_xlsb(&args),
+        ("replay", "xlsbstyles") => props::numfmt::replay_xlsb_styles(&args),
         ("drive", "dates") => props::dates::drive(&args),
         ("replay", "xlsx_tables") => props::xlsx_tables::replay(&args),
         ("drive", "xlsx_tables") => props::xlsx_tables::drive(&args),
@@ -66,6 +68,8 @@ fn main() {
         ("replay", "sst") => isolate::run_replay(&args, props::sst::replay),
         ("drive", "sst") => isolate::run_drive(&args, props::sst::drive),
         ("drive", "biffcells") => isolate::run_drive(&args, props::biff::drive_cells),
+        ("replay", "xlsbfmla") => props::xlsb_fmla::replay(&args),
+        ("replay", "xlsbcols") => props::xlsb_fmla::columns(&args),
         _ => {
             eprintln!("unknown command {} {}", args.cmd, args.sub);
             2
